@@ -141,16 +141,17 @@ theorem takeCont_length (k : Nat) (bs : Bytes) : (takeCont k bs).2.length ≤ bs
       · have := ih bs; simp only [List.length_cons]; omega
       · simp
 
+/-- continuation octets a lead octet asks for -/
+def leadLen (c : Nat) : Option Nat :=
+  if c ≤ 0x7f then some 0 else if 0xc0 ≤ c ∧ c ≤ 0xdf then some 1
+  else if 0xe0 ≤ c ∧ c ≤ 0xef then some 2 else if 0xf0 ≤ c ∧ c ≤ 0xf4 then some 3 else none
+
 def verifyUtf8 : Bytes → Except Nat Unit
   | [] => .ok ()
   | b :: bs =>
     if !bs.isEmpty && b.toNat = 0 then .error IF                 -- NUL before the last byte
     else
-      let c := b.toNat
-      let need : Option Nat :=
-        if c ≤ 0x7f then some 0 else if 0xc0 ≤ c ∧ c ≤ 0xdf then some 1
-        else if 0xe0 ≤ c ∧ c ≤ 0xef then some 2 else if 0xf0 ≤ c ∧ c ≤ 0xf4 then some 3 else none
-      match need with
+      match leadLen b.toNat with
       | none => .error IF
       | some k =>
         if k ≥ bs.length + 1 then .error St.BUFFER_OVERFLOW        -- i + k >= len
@@ -200,8 +201,10 @@ def parseLegacyId (p : Bytes) : Except Nat Bytes :=
   else if (p.drop ((p.getD 2 0).toNat + 3)).any (· != 0) then .error IF
   else .ok p
 
-def lookup (name : String) : List Entry :=
-  match Gen.templates.find? (·.1 == name) with
+abbrev Tables := List (String × List Entry)
+
+def lookup (tabs : Tables) (name : String) : List Entry :=
+  match tabs.find? (·.1 == name) with
   | some (_, t) => t
   | none => []
 
@@ -230,13 +233,13 @@ def keyed (tm : List Entry) (vs : List (Nat × Val)) : List (Nat × Val) :=
 
 /-- the value parser of one row (`extractObject` / `extractComposite`); `derOK` stands for
 OpenSSL accepting the bytes as a certificate / PKCS#7 structure; `fuel` bounds the nesting -/
-def parseVal (derOK : Bytes → Bool) : Nat → Entry → Elem → Except Nat Val
+def parseVal (tabs : Tables) (derOK : Bytes → Bool) : Nat → Entry → Elem → Except Nat Val
   | 0, _, _ => .error St.UNKNOWN_ERROR
   | fuel + 1, t, e =>
     let sub (name : String) : Except Nat (List (Nat × Val)) :=
-      match extractBytes (lookup name) (parseVal derOK fuel) e.payload with
+      match extractBytes (lookup tabs name) (parseVal tabs derOK fuel) e.payload with
       | .error c => .error c
-      | .ok vs => .ok (keyed (lookup name) vs)
+      | .ok vs => .ok (keyed (lookup tabs name) vs)
     match t.kind with
     | .int => match parseInt e.payload with | .error c => .error c | .ok n => .ok (.int n)
     | .utf8 => match parseUtf8 e.payload with | .error c => .error c | .ok s => .ok (.str s)
@@ -278,15 +281,17 @@ def FUEL : Nat := 12
 
 structure Cfg where
   derOK : Bytes → Bool
+  /-- the template tables: the ones generated from the source, or the reference schema -/
+  tabs : Tables := Gen.templates
 
 /-- `KSI_TlvTemplate_parse(ctx, raw, len, tmpl, payload)` -/
 def templateParse (c : Cfg) (name : String) (raw : Bytes) : Except Nat (List (Nat × Val)) :=
   match parseBlob raw with
   | .error e => .error e
   | .ok t =>
-    match extractBytes (lookup name) (parseVal c.derOK FUEL) (Elem.ofTlv t).payload with
+    match extractBytes (lookup c.tabs name) (parseVal c.tabs c.derOK FUEL) (Elem.ofTlv t).payload with
     | .error e => .error e
-    | .ok vs => .ok (keyed (lookup name) vs)
+    | .ok vs => .ok (keyed (lookup c.tabs name) vs)
 
 def V1_TO_V2_AGGR : Nat := 0x40c
 def V2_TO_V1_AGGR : Nat := 0x40b
@@ -327,10 +332,10 @@ def parseSignature (c : Cfg) (raw : Bytes) : Except Nat (List (Nat × Val)) :=
     | .error e => .error e
     | .ok t =>
       if t.tag ≠ 0x800 then .error IF
-      else match extractBytes (lookup "KSI_Signature") (parseVal c.derOK FUEL) (Elem.ofTlv t).payload with
+      else match extractBytes (lookup c.tabs "KSI_Signature") (parseVal c.tabs c.derOK FUEL) (Elem.ofTlv t).payload with
         | .error e => .error e
         | .ok vs0 =>
-          let vs := keyed (lookup "KSI_Signature") vs0
+          let vs := keyed (lookup c.tabs "KSI_Signature") vs0
           let has (row : Nat) := vs0.any (·.1 == row)
           if !has 0 then .error IF
           else if !has 1 && (has 4 || has 2) then .error St.UNKNOWN_ERROR
@@ -363,8 +368,8 @@ def parsePubFile (c : Cfg) (raw : Bytes) : Except Nat (List (Nat × Val) × Nat)
   if raw.isEmpty then .error St.INVALID_ARGUMENT
   else if raw.take 8 != PUB_MAGIC then .error IF
   else
-    let tm := lookup "KSI_PublicationsFile"
-    match pubRun tm (parseVal c.derOK FUEL) (raw.length + 1) {} (raw.drop 8) false 0 0 with
+    let tm := lookup c.tabs "KSI_PublicationsFile"
+    match pubRun tm (parseVal c.tabs c.derOK FUEL) (raw.length + 1) {} (raw.drop 8) false 0 0 with
     | .error e => .error e
     | .ok (s, sigOff) =>
       if finalCheck s tm 0 then .ok (keyed tm s.vals, 8 + sigOff) else .error IF
